@@ -21,8 +21,9 @@ func init() {
 		Explain: "PARTIAL — structural necessary conditions only. Decided: (range) the slice of partitions a member gets is partitions[f(i):f(i+1)] with one and the same rounding function f of the member's index, so consecutive ranges are contiguous and telescope over the topic (C13.range-telescoping); (round-robin) the member examined and assigned is members[i % n] at every point, and the cursor advances by exactly one after every assignment and every skipped member (C13.rr-cursor); " +
 			"(sticky, no pairwise swap) every move of a partition goes through reassignPartition, which moves the partition chosen by movements.getTheActualPartitionToBeMoved for the same (old owner, new owner) pair, that function looks the reverse pair (new → old) up in the topic's movement record and returns one of its partitions when present, and processPartitionMovement records every move (C13.swap-guard); " +
 			"(sticky, prior state) of the owners claiming a partition in user data the one with the highest generation becomes the current owner and the next one the previous owner (C13.generation-order). " +
+			"Shared with C08: the eligibility guards of the three strategies (C08.eligible) — a remembered partition that no longer exists, kept in a member's working list, counts towards its size and can never be moved, so the plan stays unbalanced. " +
 			"NOT decided: that range sizes / round-robin totals differ by at most one (floating-point and modular arithmetic), balance in Kafka's sense, the fixed point of re-planning, keep-on-leave and no-shuffle-on-join — these are relations over the algorithm's outputs for all inputs and need execution or a solver.",
-		Rules: []func(*Ctx){c13Range, c13RoundRobin, c13SwapGuard, c13Generation},
+		Rules: []func(*Ctx){c13Range, c13RoundRobin, c13SwapGuard, c13Generation, c08Rules},
 	})
 }
 
